@@ -68,8 +68,11 @@ def get_segment(cSegment, seg_term='~', ele_term='*', subele_term=':'):
     for node in cSegment.iter():
         if node.tag == 'ele':
             ele_id = node.get('id')
-            if node.text != '':
+            # (an element without content has no text at all; the ISA keeps all its elements)
+            if node.text is not None and node.text != '':
                 seg_data.set(ele_id, node.text)
+            elif seg_id == 'ISA':
+                seg_data.set(ele_id, '')
         elif node.tag == 'comp':
             for subele in node.findall('subele'):
                 subele_id = subele.get('id')
